@@ -21,6 +21,8 @@ pub trait Sc:
     const NAME: &'static str;
     /// unit round-off
     fn u() -> f64;
+    /// smallest positive subnormal (absolute rounding granularity near zero)
+    fn tiny() -> f64;
     fn of(v: f64) -> Self;
     fn f(self) -> f64;
     /// bit pattern, widened to u64
@@ -32,6 +34,9 @@ impl Sc for f64 {
     const NAME: &'static str = "f64";
     fn u() -> f64 {
         f64::EPSILON / 2.0
+    }
+    fn tiny() -> f64 {
+        5e-324
     }
     #[inline]
     fn of(v: f64) -> Self {
@@ -54,6 +59,9 @@ impl Sc for f32 {
     const NAME: &'static str = "f32";
     fn u() -> f64 {
         (f32::EPSILON / 2.0) as f64
+    }
+    fn tiny() -> f64 {
+        1.5e-45
     }
     #[inline]
     fn of(v: f64) -> Self {
